@@ -150,14 +150,14 @@ def step (st : St) (_n : Nat) (ws : List String) : Except String (St × Nat) :=
       if lenNoPadding b != len then .error s!"LenNoPadding: implementation {len}, model {lenNoPadding b}"
       else if b.curSz != cur then .error s!"curSz: implementation {cur}, model {b.curSz}"
       else if modeName b.mode != mode then .error s!"mode: implementation {mode}, model {modeName b.mode}"
-      else if b.data.length != b.offset then .error "model invariant: data.length ≠ offset"
       else .ok (st, 3)
     | _, _ => .error "bad st"
   | ["bytesh", len, hv] =>
     match nat? len, u64? hv with
     | some len, some hv =>
       let d := bytes b
-      if d.length != len then .error s!"Bytes(): implementation has {len} bytes, model {d.length}"
+      if b.data.length != b.offset then .error "model invariant: data.length ≠ offset"
+      else if d.length != len then .error s!"Bytes(): implementation has {len} bytes, model {d.length}"
       else if fnv1a d != hv then .error "Bytes(): hash differs from the model"
       else .ok (st, 1)
     | _, _ => .error "bad bytesh"
